@@ -661,7 +661,16 @@ def run(chk: Check):
             else:
                 fails.append(f'the interpreter died at step {kc} ({ops[kc]}): {sig}')
         for kp, what, sig in r['pred']:     # (S-C09c, once classified here by its signature, is fixed: 29b7b6ce)
-            if sig == 'array_map':     # (S-C09d, once classified here, is fixed: 9bb93cff)
+            stale_map_garbage = ('alias=array rewritten=other' in r['info'].get(kp, '') and kp < len(mtoks) and
+                                 mtoks[kp].startswith('saved:') and mtoks[kp].split(':')[2] == 'G' and
+                                 (what.startswith('file_differs') or what.startswith('unusable')))
+            if stale_map_garbage:
+                # the saver's own array is a memory map of a file rewritten (with another layout) since the image was
+                # built around it: what it holds is garbage already - the model says so too (G) - and garbage with
+                # NaN / huge values does not survive a dtype change
+                chk.known('S-C09b', S_C09B)
+                chk.tagc('known:S-C09b:save_of_stale_array_map')
+            elif sig == 'array_map':     # (S-C09d, once classified here, is fixed: 9bb93cff)
                 chk.known('S-C09b', S_C09B)
                 chk.tagc('known:S-C09b:array_is_map_of_rewritten_file')
             else:
